@@ -47,6 +47,20 @@ fn main() {
 				std::process::exit(2);
 			}
 		},
+		// diagnosis: send one text on a fresh WebSocket connection of the standard rig, then a probe call; print every frame to EOF
+		"wsraw" => {
+			let rt = tokio::runtime::Builder::new_multi_thread().worker_threads(4).enable_all().build().unwrap();
+			rt.block_on(async {
+				use std::time::Duration;
+				let rig = vh::server_rig::Rig::new(Default::default());
+				let mut ws = rig.ws().await.unwrap();
+				ws.send_text(&args[2]).await;
+				ws.send_text(r#"{"jsonrpc":"2.0","id":"probe","method":"echo"}"#).await;
+				let (a, hit) = ws.recv_until(Duration::from_secs(3), |v| v["id"] == "probe").await;
+				let (b, clean) = ws.stop_and_drain(Duration::from_secs(3)).await;
+				println!("until probe ({hit}): {a:#?}\nafter stop (clean={clean}): {b:#?}\nhandler log: {:?}", rig.take_log());
+			});
+		}
 		"smoke" => {
 			let rt = tokio::runtime::Builder::new_multi_thread().worker_threads(4).enable_all().build().unwrap();
 			rt.block_on(async {
